@@ -22,7 +22,7 @@ class C16(Prop):
     id = 'C16'
     lean_modules = ['RSocketModel.Props.C16', 'RSocketModel.Props.C16Source', 'RSocketModel.Props.C13Endpoints']
     technique = 'Lean 4 proof (codec round-trip of the SETUP built from the configuration; queue/gate invariant over all connect interleavings; decision logic) + differential correspondence'
-    level_text = ('c16_setup_fields_exact (every configuration within the wire ranges), c16_millis_exact, c16_setup_first (every interleaving of requests, keepalive ticks, sender steps, '
+    level_text = ('c16_server_decision_matches_source (Props/C16Source.lean): RSocketBase.handle_setup, compiled from rsocket_base.py on every run, has the closed form the engine theorem c16_server_decision proves of the model (RESUME / LEASE-without-publisher refused with UNSUPPORTED_SETUP before on_setup and before any lease subscription; on_setup failure refused with REJECTED_SETUP); c16_init_arguments_forwarded: both endpoint constructors hand every argument to RSocketBase under its own name. c16_setup_fields_exact (every configuration within the wire ranges), c16_millis_exact, c16_setup_first (every interleaving of requests, keepalive ticks, sender steps, '
                   'gate opening, timeouts and reconnects after connect()) and c16_server_decision are kernel-checked; the client model is replayed on the entry-point sequence observed from '
                   'a real RSocketClient whose provider and transport.connect() suspend for chosen numbers of loop iterations; the SETUP bytes are compared with the codec model.')
     level_note = ('Trusted: Lean kernel + standard axioms; float rounding of to_milliseconds for periods that are not whole milliseconds is compared (nearest or floor accepted), not proved; '
